@@ -141,12 +141,13 @@ def run_property(pid, tier='quick', seed=0, explain=None):
             new.append(v)
     wall = time.time() - t0
     ev = build_evidence(ctx, mod, new, known_hit, wall)
-    os.makedirs(os.path.join(VERIF, 'evidence'), exist_ok=True)
-    with open(os.path.join(VERIF, 'evidence', pid + '.json'), 'w') as fh:
+    outdir = VERIF if os.path.realpath(root) == '/repo' else os.path.join(VERIF, '.cache', 'scratch-out')
+    os.makedirs(os.path.join(outdir, 'evidence'), exist_ok=True)
+    with open(os.path.join(outdir, 'evidence', pid + '.json'), 'w') as fh:
         json.dump(ev, fh, indent=1)
     for v, e in known_hit:
         print('KNOWN-FINDING: property=%s %s [%s at %s]' % (pid, e.get('what', v['message']), v['key'], v['where']))
-    rep_path = os.path.join(VERIF, 'reports', pid + '.json')
+    rep_path = os.path.join(outdir, 'reports', pid + '.json')
     os.makedirs(os.path.dirname(rep_path), exist_ok=True)
     if new:
         with open(rep_path, 'w') as fh:
